@@ -31,6 +31,52 @@ theorem config_independent {α : Type} (inOrder : α) (f1 f2 : Bool) (n m1 m2 : 
   unfold execute
   cases pathSelect f1 n m1 <;> cases pathSelect f2 n m2 <;> rfl
 
+/-- **replay_append.** Replaying `xs ++ ys` when `xs` replays without a fatal error is the replay
+    of `xs` followed by the replay of `ys`, the error position shifted by `xs.length`: the
+    committed prefix of a parallel run followed by the sequential replay of the suffix is the
+    sequential replay of the whole block, and an error in the suffix is reported at its GLOBAL
+    index. -/
+theorem replay_append (xs ys : List TxRes) (h : (replay xs).2 = none) :
+    replay (xs ++ ys) =
+      ((replay xs).1 ++ (replay ys).1, (replay ys).2.map fun p => (p.1 + xs.length, p.2)) := by
+  induction xs with
+  | nil => cases hr : (replay ys).2 <;> simp [replay, hr, Prod.ext_iff]
+  | cons x rest ih =>
+    cases x with
+    | ok r =>
+      simp only [replay, Option.map_eq_none_iff] at h
+      simp only [List.cons_append, replay, ih h, List.length_cons]
+      cases hr : (replay ys).2 <;> simp [Nat.add_assoc]
+    | invalid reason =>
+      simp only [replay, Option.map_eq_none_iff] at h
+      simp only [List.cons_append, replay, ih h, List.length_cons]
+      cases hr : (replay ys).2 <;> simp [Nat.add_assoc]
+    | fatal e => simp [replay] at h
+
+/-- The outcomes of a fault-free replay are one per transaction. -/
+theorem replay_length (xs : List TxRes) (h : (replay xs).2 = none) : (replay xs).1.length = xs.length := by
+  induction xs with
+  | nil => simp [replay]
+  | cons x rest ih =>
+    cases x with
+    | ok r => simp only [replay, Option.map_eq_none_iff] at h; simp [replay, ih h]
+    | invalid reason => simp only [replay, Option.map_eq_none_iff] at h; simp [replay, ih h]
+    | fatal e => simp [replay] at h
+
+/-- **suffix_replay_is_sequential.** A parallel run that committed the first `k` transactions
+    (their in-order outcomes, C02) and then replays the suffix sequentially yields exactly what the
+    purely sequential path yields for the whole block — outcomes and error index alike. -/
+theorem suffix_replay_is_sequential (block : List TxRes) (k : Nat)
+    (hpre : (replay (block.take k)).2 = none) :
+    ((replay (block.take k)).1 ++ (replay (block.drop k)).1,
+      (replay (block.drop k)).2.map fun p => (p.1 + (block.take k).length, p.2)) = replay block := by
+  have := replay_append (block.take k) (block.drop k) hpre
+  rw [List.take_append_drop] at this
+  exact this.symm
+
+example : replay [.ok 1, .invalid 2, .ok 3, .fatal 9, .ok 4] = ([.executed 1, .skipped 2, .executed 3], some (3, 9)) := by
+  decide
+
 example : pathSelect false 3 0 = .parallel ∧ pathSelect false 3 4 = .sequential ∧
     pathSelect true 100 0 = .sequential := by decide
 
